@@ -31,6 +31,8 @@ func main() {
 		err = fam.Propagation(*scn, *out, *seed, *n)
 	case "reconcile":
 		err = fam.Reconcile(*scn, *out, *seed, *n)
+	case "hooksel":
+		err = fam.HookSel(*scn, *out, *seed, *n)
 	case "trees":
 		err = fam.Trees(*scn, *out, *seed, *n)
 	case "policyapply":
